@@ -14,14 +14,34 @@ import (
 
 // pipeRec is everything observable about one pipeline.
 type pipeRec struct {
-	parse  parsed
-	fp     string     // fingerprint of the tree right after parsing
-	ops    []opResult // one per scn.Op
-	dump   string     // full dump (tokens+positions) taken when the pipeline ended
-	fpEnd  string
-	redump string // phase 3: full dump taken after every other task finished
-	fp3    string
-	done   bool
+	parse   parsed
+	fp      string     // fingerprint of the tree right after parsing
+	ops     []opResult // one per scn.Op
+	dump    string     // full dump (tokens+positions) taken when the pipeline ended
+	fpEnd   string
+	errsEnd string // the retained error objects rendered again at pipeline end
+	redump  string // phase 3: full dump taken after every other task finished
+	fp3     string
+	errs3   string
+	done    bool
+}
+
+// hash of everything a pipeline observed, for comparison with an isolated
+// (fresh process) execution of the same pipeline
+func (r *pipeRec) hash() string {
+	parts := []string{r.parse.out, r.parse.errs, r.fp}
+	for i := range r.ops {
+		parts = append(parts, r.ops[i].out)
+	}
+	parts = append(parts, r.dump, r.fpEnd, r.errsEnd)
+	out := ""
+	for i, p := range parts {
+		if i > 0 {
+			out += ","
+		}
+		out += strconv.FormatUint(strHash(p)^uint64(len(p)), 16)
+	}
+	return out
 }
 
 func fullDump(root ast.Vertex, srcLen int) string {
@@ -47,6 +67,7 @@ func runOps(s *scn.Scenario, pl *scn.Pipeline, rec *pipeRec) {
 	}
 	rec.dump = fullDump(rec.parse.root, len(in.Src))
 	rec.fpEnd = fingerprint(rec.parse.root, rec.parse.src)
+	rec.errsEnd = renderErrs(rec.parse.errList)
 	rec.done = true
 }
 
@@ -237,6 +258,7 @@ func runC11(s *scn.Scenario, res *scn.Result) {
 			if recs[i].done {
 				recs[i].redump = fullDump(recs[i].parse.root, len(s.Inputs[pipes[i].pl.Input].Src))
 				recs[i].fp3 = fingerprint(recs[i].parse.root, recs[i].parse.src)
+				recs[i].errs3 = renderErrs(recs[i].parse.errList)
 			}
 		}
 	})
@@ -299,6 +321,11 @@ func runC11(s *scn.Scenario, res *scn.Result) {
 		if g.fpEnd != w.fpEnd {
 			add("O1-equals-alone", "final-fingerprint", id+": tree at pipeline end differs from alone ("+g.fpEnd+" vs "+w.fpEnd+")")
 		}
+		if g.errsEnd != w.parse.errs {
+			add("O3-stays-valid", "stale-errors", id+": the error objects delivered by the parse changed by the end of the pipeline "+firstDiff(g.errsEnd, w.parse.errs))
+		} else if g.errs3 != w.parse.errs {
+			add("O3-stays-valid", "stale-errors", id+": the error objects delivered by the parse changed after the pipeline ended "+firstDiff(g.errs3, w.parse.errs))
+		}
 		if g.redump != w.dump {
 			add("O3-stays-valid", "stale-dump", id+": dump after all tasks finished "+firstDiff(g.redump, w.dump))
 		}
@@ -307,6 +334,49 @@ func runC11(s *scn.Scenario, res *scn.Result) {
 		}
 		res.Ops += 1 + len(g.ops)
 	}
+	for i := range pipes {
+		h := ""
+		if recs[i].done {
+			h = recs[i].hash()
+		}
+		res.PipeHashes = append(res.PipeHashes, h)
+	}
 	res.OutcomeHash = strconv.FormatUint(outcome, 16)
 	res.NonTrivial = len(pipes) >= 2 && res.Preemptions >= 1
+}
+
+// runIso executes ONE pipeline alone in this (fresh) process and reports the
+// hash of everything it observed: the reference "the same work done alone".
+func runIso(s *scn.Scenario, k int, res *scn.Result) {
+	for i := range s.Inputs {
+		if v := s.Inputs[i].Version; v != "" {
+			if _, ok := sharedVersions[v]; !ok {
+				nv, err := version.New(v)
+				if err != nil {
+					res.Infra = "bad version in scenario: " + v
+					return
+				}
+				sharedVersions[v] = nv
+			}
+		}
+	}
+	pipes := flatten(s)
+	if k < 0 || k >= len(pipes) {
+		res.Infra = "iso: no such pipeline"
+		return
+	}
+	rec := &pipeRec{}
+	zzsim.Init(refConfig(s))
+	applyKnob(s.Knob)
+	zzsim.Spawn(func() {
+		runParse(s, pipes[k].pl, rec)
+		runOps(s, pipes[k].pl, rec)
+	})
+	zzsim.Run()
+	res.Steps = zzsim.Steps
+	res.PipeHashes = []string{rec.hash()}
+	res.Trace = []string{short(rec.parse.out, 200), short(rec.parse.errs, 400)}
+	for i := range rec.ops {
+		res.Trace = append(res.Trace, pipes[k].pl.Ops[i].Kind+": "+short(rec.ops[i].out, 400))
+	}
 }
